@@ -812,8 +812,11 @@ fn crop_line_by_cols(line: &str, left_col_1: usize, right_col_1: usize) -> (Stri
     }
 
     // If the crop window starts at/after EOL for this line, keep it intact.
-    // This avoids turning short context lines into just "…".
-    if left_col_1 >= line_len_cols.saturating_add(1) {
+    // This avoids turning short context lines into just "…". Only lines that fit the width of
+    // the window are kept, though: the point of cropping is a bounded report, and a context
+    // line of any length can lie entirely to the left of a far-right error column.
+    let window_cols = right_col_1.saturating_sub(left_col_1).saturating_add(1);
+    if left_col_1 >= line_len_cols.saturating_add(1) && line_len_cols <= window_cols {
         return (
             line.to_owned(),
             LineCrop {
